@@ -375,6 +375,14 @@ class Env(object):
             ns[n] = getattr(orm, n)
         exec(compile(schema.pony_source(), '<qdiff schema %s>' % schema.name, 'exec'), ns)
         ns['_G'] = ns
+        from pony.orm import core as _core
+        def _N(v):
+            """normalise a value observed on a result object (entities -> keys, results/lists -> lists)"""
+            if isinstance(v, (_core.QueryResult, list)): return [_N(i) for i in v]
+            if isinstance(v, _core.Entity): return norm_pony(v, _core.Entity)
+            if isinstance(v, tuple): return tuple(_N(i) for i in v)
+            return v
+        ns['_N'] = _N
         self.ns = ns
         db.bind('sqlite', ':memory:')
         db.generate_mapping(create_tables=True)
@@ -434,6 +442,9 @@ def get_env(schema_name='S1'):
 #   ['slice', a, b] ['limit', n, off] ['page', pagenum, size] ['first'] ['get'] ['exists'] ['len']
 #   ['count', distinct] ['sum', distinct] ['avg', distinct] ['min'] ['max'] ['group_concat', sep, distinct]
 #   ['distinct'] ['without_distinct'] ['random', n] ['delete', bulk]
+#   ['fetch', n, off]   eager Query.fetch
+#   ['access', [ops]]   script of accesses on the result object: ['idx', i] ['slice', a, b] ['slice2', a, b, c, d] ['len']
+#                       ['list'] ['to_list'] ['reversed'] ['next', k] ['contains', i]; result value ('$access', [observed...])
 #   ['iter', src]    new query over the previous (possibly limited) query: src uses _Q, e.g. 'x for x in _Q if x.age > 1'
 TERMINALS = ('first', 'get', 'exists', 'count', 'sum', 'avg', 'min', 'max', 'group_concat', 'len', 'delete')
 
@@ -529,6 +540,25 @@ def render_program(p):
             if len(step) > 2 and step[2] is not None: kw.append('distinct=%r' % step[2])
             add('    q = q.group_concat(%s)' % ', '.join(kw))
         elif op == 'random': add('    q = q.random(%d)' % step[1])
+        elif op == 'fetch': add('    q = q.fetch(%s)' % ', '.join(repr(x) for x in step[1:]))
+        elif op == 'access':
+            # a script of accesses on the RESULT OBJECT (QueryResult), in order, each observed value recorded
+            add('    _r, _out = q, []')
+            for a in step[1]:
+                k = a[0]
+                if k == 'idx': expr = '_r[%d]' % a[1]
+                elif k == 'slice': expr = '_r[%s:%s]' % ('' if a[1] is None else a[1], '' if a[2] is None else a[2])
+                elif k == 'slice2': expr = '_r[%s:%s][%s:%s]' % tuple('' if x is None else x for x in a[1:5])
+                elif k == 'len': expr = 'len(_r)'
+                elif k == 'list': expr = 'list(_r)'
+                elif k == 'to_list': expr = '_r.to_list()'
+                elif k == 'reversed': expr = 'list(reversed(_r))'
+                elif k == 'next': expr = '(lambda it: [next(it) for _ in range(%d)])(iter(_r))' % a[1]
+                elif k == 'contains': expr = '(_r[%d] in _r) if len(_r) > %d else None' % (a[1], a[1])
+                else: raise ValueError(a)
+                add('    try: _out.append(_N(%s))' % expr)
+                add("    except (IndexError, StopIteration, RuntimeError) as _e: _out.append(('$exc', 'StopIteration' if type(_e).__name__ == 'RuntimeError' else type(_e).__name__))")
+            add("    q = ('$access', _out)")
         elif op == 'delete': add('    q = q.delete(bulk=%r)' % step[1])
         elif op == 'iter':
             add('    _Q = q')
